@@ -119,7 +119,7 @@ func (e *Exec) cfg(w []string) string {
 		if sc == "-" {
 			sc = ""
 		}
-		f := &faultSto{inner: s, sched: []byte(sc)}
+		f := &faultSto{inner: s, sched: []byte(sc), id: len(leaves)}
 		leaves = append(leaves, f)
 		return f
 	})
@@ -184,6 +184,9 @@ func (e *Exec) Do(w []string) string {
 	default:
 		return "bad-op"
 	}
+	if trace {
+		println("op", w[0], w[len(w)-1])
+	}
 	base := runtime.NumGoroutine()
 	out := watchdog(opTimeout, func() string { return c01.ExecOn(e.sto, w) })
 	if out == "hang" {
@@ -191,6 +194,9 @@ func (e *Exec) Do(w []string) string {
 		return out
 	}
 	e.settle(base)
+	if trace {
+		println("  ->", out[:min(len(out), 12)])
+	}
 	return out
 }
 
